@@ -11,7 +11,7 @@ func init() {
 	register(&PropDef{
 		ID:    "C15",
 		Pkgs:  []string{tr},
-		Claim: "Decides the structural part of the keepalive logic: the server sends GOAWAY(ENHANCE_YOUR_CALM, too_many_pings) only when the strike counter exceeds 2; a strike is counted only when a ping arrived sooner than the applicable minimum interval after the previous one (the configured MinTime when there are active streams or pings without streams are permitted, 2 hours otherwise); strikes are reset when the server wrote headers or data since (flag set by the on-write hooks of every server HEADERS/DATA item); both keepalive loops close the connection only with a ping outstanding and no timeout left, after the 'data was read since' arm was not taken, and sleep no longer than the remaining timeout; the client goes dormant only with no active streams and PermitWithoutStream off. No duration is decided.",
+		Claim: "Decides the structural part of the keepalive logic: the server sends GOAWAY(ENHANCE_YOUR_CALM, too_many_pings) only when the strike counter exceeds 2; a strike is counted only when a ping arrived sooner than the applicable minimum interval after the previous one (the configured MinTime when there are active streams or pings without streams are permitted, 2 hours otherwise); strikes are reset when the server wrote headers or data since (flag set by the on-write hooks of every server HEADERS/DATA item); both keepalive loops close the connection only with a ping outstanding and no timeout left, after the 'data was read since' arm was not taken, and sleep no longer than the remaining timeout; the client goes dormant only with no active streams and PermitWithoutStream off. No duration is decided. Both reader loops store the time of every successful frame read into lastRead before the frame is dispatched (on the client unless keepalive is disabled), so a connection that delivers frames is never taken for a dead one.",
 		NotDecided:  []string{"every real-time bound (detection within Time+Timeout, 2-hour spacing, ping rate) - real-time quantities", "clock behaviour"},
 		Assumptions: []string{"time.Timer semantics"},
 		Technique:   "static analysis: dominating guards and refusing-arm unreachability on go/ssa branch facts, symbolic upper bound of the sleep duration, value-origin of hook fields, who-may-write",
@@ -189,6 +189,54 @@ func c15(c *Ctx) {
 			}
 		}
 		c.Expect(nSig == 2, nil, nil, "wake-up-sites", "expected the new-stream and the Close wake-up of the dormant keepalive goroutine")
+	})
+	c.Ob("activity-recorded", "R3", "reader loops (client reader, server HandleStreams): after every frame read the time of the read is stored into lastRead before the frame is dispatched — on the client unless keepalive is disabled — so the keepalive loop never takes a connection that delivers frames (including the ping ack) for a dead one", 2, func() {
+		for _, side := range []struct{ fn, typ string }{{"http2Client.reader", "http2Client"}, {"http2Server.HandleStreams", "http2Server"}} {
+			f := c.fn(tr, side.fn)
+			fLR := c.field(tr, side.typ, "lastRead")
+			rf := one(c, "readFrame call in "+side.fn, callsIn(f, Callee(tr, "framer.readFrame")))
+			isStore := func(in ssa.Instruction) bool {
+				call, ok := in.(*ssa.Call)
+				return ok && CalleeX("sync/atomic", "StoreInt64")(&call.Call) && FieldAddrOf(fLR)(call.Call.Args[0])
+			}
+			// what acts on the result of the read: any call on the transport or the stream table, and any return
+			acts := func(in ssa.Instruction) bool {
+				if _, ok := in.(*ssa.Return); ok {
+					return true
+				}
+				ci, ok := in.(ssa.CallInstruction)
+				if !ok || isStore(in) {
+					return false
+				}
+				callee := ci.Common().StaticCallee()
+				return callee != nil && callee.Pkg != nil && callee.Pkg.Pkg.Path() == full(tr) && callee.Name() != "readFrame"
+			}
+			// (the arm that handles a failed read is not followed: whether a failed read counts as activity
+			// is not part of the property)
+			rerr := NotNil(ExtractOf(func(v ssa.Value) bool { return v == rf.Value() }, 1))
+			q := pathQuery{Fn: f, Starts: []ssa.Instruction{rf}, Barrier: isStore, Target: acts}
+			isClient := side.typ == "http2Client"
+			q.EdgeBlock = func(from, to *ssa.BasicBlock) bool {
+				fs := edgeFacts(from, to)
+				if _, failed := hasFact(fs, rerr); failed {
+					return true
+				}
+				if isClient {
+					_, off := hasFact(fs, Truth(FieldLoad(c.field(tr, "http2Client", "keepaliveEnabled")), false))
+					return off
+				}
+				return false
+			}
+			c.MustPass(side.fn+":read-time-stored-before-the-frame-is-acted-on", q, rf)
+			n := 0
+			for _, in := range instrsWhere(f, isStore) {
+				if instrDominates(rf, in) {
+					n++
+					c.ArgIs(in.(*ssa.Call), 1, side.fn+":stores-the-current-time", CallRes(CalleeX("time", "Time.UnixNano"), 0))
+				}
+			}
+			c.Expect(n >= 1, rf, f, side.fn+":read-time-store", "no store of lastRead after the frame read")
+		}
 	})
 	c.Ob("keepalive-close", "R2", "sibling x2 (client, server keepalive loops): the connection is closed for a missing ack only with a ping outstanding, no timeout left, and no data read since the last check; the sleep is at most the remaining timeout and at most Time; a ping is sent only when none is outstanding", 10, func() {
 		for _, side := range []struct {
